@@ -94,6 +94,8 @@ def offsets_jobs(tier, seed):
     style = seed % 5
     big = dict(MaxAnns=12, MaxRes=3)
     jobs = [laws_job('offsets', 6 if tier == 'quick' else 9),
+            # relative offsets inside complex selectors over annotations (range compression)
+            gen_job('complexrel_p13', 'complexrel', 13, depth=1, style=style, reads=['anntext'], per_state=False, MaxAnns=10, MaxRes=2, MaxData=4),
             gen_job('offsets_annotate', 'offsets', 7, depth=1, style=style, reads=['anntext'], per_state=False, **big),
             gen_job('offsets_textsel', 'offsets', 7, depth=0, style=style, reads=['offsets'], **big)]
     if tier != 'quick':
@@ -182,6 +184,8 @@ def related_jobs(tier, seed):
     big = dict(MaxAnns=12)
     jobs = [laws_job('relations', 3),
             gen_job('related_states', 'related', 9, depth=2 if quick else 3, style=style, reads=['related'], P1=4 if quick else 5, **big)]
+    # references (annotations) with nested parts
+    jobs.append(gen_job('related_p17', 'remove', 17, depth=0, style=style, reads=['related'], MaxAnns=12, MaxRes=2))
     if quick:
         jobs.append(gen_job('related_sim', 'related', 9, simulate=12, simdepth=4, style=style, reads=['related'], P1=5, sample_mod=7, **big))
     else:
@@ -197,7 +201,7 @@ def textop_jobs(tier, seed):
     quick = tier == 'quick'
     big = dict(MaxAnns=12)
     jobs = [laws_job('text', 3 if quick else 4)]
-    for alpha in (1, 2, 3) if quick else (1, 2, 3, 4):
+    for alpha in (1, 2, 3, 5) if quick else (1, 2, 3, 4, 5):
         jobs.append(gen_job(f'textops_a{alpha}', 'textops', 0, depth=1, style=style, reads=['textops'], P1=3 if quick else 4, P2=alpha))
     jobs.append(gen_job('segment_states', 'related', 9, depth=2 if quick else 3, style=style, reads=['segment'], P1=4 if quick else 5, **big))
     if not quick:
@@ -236,6 +240,8 @@ def webanno_jobs(tier, seed):
     jobs = [mc_job('mc_complex_small', 'complex', maxanns=2)]
     for style in range(5):
         jobs.append(gen_job(f'webanno_core_s{style}', 'core', 2, depth=1, size='v', style=style, reads=['webanno'], **big))
+    # string values that look like IRIs (exported as nodes), with backslashes and control characters
+    jobs.append(gen_job('webanno_iri', 'core', 2, depth=1, size='i', style=0, reads=['webanno'], **big))
     s = seed % 5
     jobs += [gen_job('webanno_complex_p2', 'complex', 2, depth=2, style=s, reads=['webanno'], **big),
              gen_job('webanno_p6', 'remove', 6, depth=1, style=(s + 1) % 5, reads=['webanno'], **big),
